@@ -221,7 +221,22 @@ func (f fetcher) FetchSourcePackage(ctx context.Context, sourceType string, u *u
 				err = os.Chmod(full, mode)
 			}
 		case "link":
-			err = os.Symlink(fl.Target, full)
+			tgt := fl.Target
+			if strings.Contains(tgt, "@SIBLINGPKG@") {
+				// a hostile fetcher looks around: it links to whatever package directory already sits next to its own
+				sib := "no-sibling-yet"
+				if ents, e := os.ReadDir(filepath.Dir(targetDir)); e == nil {
+					for _, en := range ents {
+						if en.IsDir() && !strings.HasPrefix(en.Name(), ".tmp-") {
+							sib = en.Name()
+							r.out.Probe("hostile-link-to-existing-sibling-package")
+							break
+						}
+					}
+				}
+				tgt = strings.ReplaceAll(tgt, "@SIBLINGPKG@", sib)
+			}
+			err = os.Symlink(tgt, full)
 		case "fifo":
 			err = syscall.Mkfifo(full, 0o644)
 		}
